@@ -72,7 +72,7 @@ pub struct Case {
 
 pub struct H;
 
-type Model = BTreeMap<u8, Bytes>;
+pub(crate) type Model = BTreeMap<u8, Bytes>;
 
 fn multi_bytes(parts: &[Val]) -> Bytes {
     let mut v = Vec::new();
@@ -83,7 +83,7 @@ fn multi_bytes(parts: &[Val]) -> Bytes {
 }
 
 /// Applies `op` to the sequential model; returns whether it succeeds.
-fn model_apply(m: &mut Model, op: &WOp) -> bool {
+pub(crate) fn model_apply(m: &mut Model, op: &WOp) -> bool {
     match op {
         WOp::Put { key, val, create } => {
             if *create && m.contains_key(key) {
@@ -127,7 +127,7 @@ fn model_apply(m: &mut Model, op: &WOp) -> bool {
     }
 }
 
-async fn real_apply(w: &Wrapper, store: &dyn ObjectStore, op: &WOp) -> Result<(), String> {
+pub(crate) async fn real_apply(w: &Wrapper, store: &dyn ObjectStore, op: &WOp) -> Result<(), String> {
     match op {
         WOp::Put { key, val, create } => {
             let mode = if *create { PutMode::Create } else { PutMode::Overwrite };
@@ -792,7 +792,7 @@ impl H {
     }
 }
 
-fn gen_val(rng: &mut Rng, tag: &mut u32, chunk: u64) -> Val {
+pub(crate) fn gen_val(rng: &mut Rng, tag: &mut u32, chunk: u64) -> Val {
     *tag += 1;
     let sizes = boundary_sizes(chunk);
     let len = if rng.chance(3, 4) {
